@@ -82,7 +82,7 @@ func flowsUnpadded(p *an.Prog, v ssa.Value, san map[string]bool, extraOK func(ss
 			}
 		case *ssa.Call:
 			callee := x.Call.StaticCallee()
-			if callee != nil && san[an.FuncKey(callee)] {
+			if callee != nil && san[an.CanonKeyOf(callee)] {
 				continue
 			}
 			if b, ok := x.Call.Value.(*ssa.Builtin); ok && b.Name() == "len" {
@@ -294,7 +294,7 @@ func runC13(c *report.Ctx) {
 	if m2b != nil {
 		has := false
 		an.Instrs(m2b, func(in ssa.Instruction) {
-			if call, ok := in.(*ssa.Call); ok && call.Call.StaticCallee() != nil && an.FuncKey(call.Call.StaticCallee()) == "math/big.NewInt" {
+			if call, ok := in.(*ssa.Call); ok && call.Call.StaticCallee() != nil && an.CanonKeyOf(call.Call.StaticCallee()) == "math/big.NewInt" {
 				if k, ok := call.Call.Args[0].(*ssa.Const); ok && k.Value != nil && k.Value.ExactString() == "2048" {
 					has = true
 				}
@@ -317,7 +317,7 @@ func runC13(c *report.Ctx) {
 		var site ssa.Instruction
 		an.Instrs(newSeed, func(in ssa.Instruction) {
 			call, isCall := in.(*ssa.Call)
-			if !isCall || call.Call.StaticCallee() == nil || an.FuncKey(call.Call.StaticCallee()) != "golang.org/x/crypto/pbkdf2.Key" {
+			if !isCall || call.Call.StaticCallee() == nil || an.CanonKeyOf(call.Call.StaticCallee()) != "golang.org/x/crypto/pbkdf2.Key" {
 				return
 			}
 			site = in
@@ -327,7 +327,7 @@ func runC13(c *report.Ctx) {
 			h, _ := a[4].(*ssa.Function)
 			pw := p.Desc(a[0])
 			salt := p.Desc(a[1])
-			if iter != nil && klen != nil && h != nil && iter.Value.ExactString() == "2048" && klen.Value.ExactString() == "64" && an.FuncKey(h) == "crypto/sha512.New" &&
+			if iter != nil && klen != nil && h != nil && iter.Value.ExactString() == "2048" && klen.Value.ExactString() == "64" && an.CanonKeyOf(h) == "crypto/sha512.New" &&
 				pw == "param:string" && salt == `("mnemonic" + param:string)` &&
 				a[0].(*ssa.Convert).X == ssa.Value(newSeed.Params[0]) {
 				ok = true
@@ -528,7 +528,7 @@ func bigGlobals(p *an.Prog, pkg string) (map[string]int64, map[string]map[int64]
 	initf := sp.Func("init")
 	newInt := func(v ssa.Value) (int64, bool) {
 		call, ok := v.(*ssa.Call)
-		if !ok || call.Call.StaticCallee() == nil || an.FuncKey(call.Call.StaticCallee()) != "math/big.NewInt" {
+		if !ok || call.Call.StaticCallee() == nil || an.CanonKeyOf(call.Call.StaticCallee()) != "math/big.NewInt" {
 			return 0, false
 		}
 		return constInt(call.Call.Args[0])
@@ -544,11 +544,11 @@ func bigGlobals(p *an.Prog, pkg string) (map[string]int64, map[string]map[int64]
 			return
 		}
 		if n, ok := newInt(st.Val); ok {
-			ints[g.Name()] = n
+			ints[an.GName(g)] = n
 		}
 		if mm, ok := st.Val.(*ssa.MakeMap); ok {
-			mapOf[mm] = g.Name()
-			maps[g.Name()] = map[int64]int64{}
+			mapOf[mm] = an.GName(g)
+			maps[an.GName(g)] = map[int64]int64{}
 		}
 	})
 	an.Instrs(initf, func(in ssa.Instruction) {
